@@ -448,7 +448,7 @@ func verifHosts(l *roundRobinLoadBalancer) []*Host { return l.hosts.Load().([]*H
 //@ type proxycore.Conn
 //@   immutable: conn, closed, messages, recv, writer, reader, mu
 //@   guarded_by mu: err
-//@   invariant (self.err != nil) == closed(self.closed)
+//@   invariant (self.err != nil) == closed(self.closed) [C17]
 
 //@ func proxycore.Conn.Close [C14, C17]
 //@   preserves-type proxycore.Cluster, proxycore.ClusterConfig
